@@ -296,6 +296,12 @@ def run(ctx):
     # ------------------------------------------------------------------ R15.12
     rule_assert_preconditions_and_bounded_work(ctx, mir)
 
+    # ------------------------------------------------------------------ R15.13 (= R03.1)
+    # a token part that is never started/finished is an internal error (ActionError::internal) at run time
+    from .c03 import rule_product
+    _aut15 = automaton()
+    rule_product(ctx, Graph(_aut15), _aut15, rid="R15.13")
+
     ctx.not_decided += ["absence of panics / overflow for all inputs (only the accounting and guards of panic-capable constructs are decided)", "stack exhaustion inside the selectors / cssparser crates", "running-time bounds beyond progress of the state machine"]
     ctx.assumptions += ["reviewed entries of spec/panic_sites.json are guarded as stated there", "recursion detection follows resolved calls and closure creation; calls through generic trait bounds (type-structural recursion such as Option<T>::align) are not followed"]
     return ("Structural part only: progress of the tokenizer automaton for each of the 257 input symbols, must-typestate of the actions' "
